@@ -1,0 +1,50 @@
+//! Read-only verification hooks (only built with feature `verif`)
+//!
+//! Re-exports the private attack and between lookups and exposes the combined occupancy
+//! set of a [`Board`](crate::board::Board). Nothing here changes the behaviour of the library.
+
+use crate::bitboard::Bitboard;
+use crate::board::Board;
+use crate::types::{Color, Coord};
+use crate::{attack, between};
+
+/// Combined occupancy set stored in the board
+pub fn board_all(b: &Board) -> Bitboard {
+    b.all
+}
+
+pub fn attack_king(c: Coord) -> Bitboard {
+    attack::king(c)
+}
+
+pub fn attack_knight(c: Coord) -> Bitboard {
+    attack::knight(c)
+}
+
+pub fn attack_pawn(color: Color, c: Coord) -> Bitboard {
+    attack::pawn(color, c)
+}
+
+pub fn attack_rook(c: Coord, occupied: Bitboard) -> Bitboard {
+    attack::rook(c, occupied)
+}
+
+pub fn attack_bishop(c: Coord, occupied: Bitboard) -> Bitboard {
+    attack::bishop(c, occupied)
+}
+
+pub fn between_bishop_strict(src: Coord, dst: Coord) -> Bitboard {
+    between::bishop_strict(src, dst)
+}
+
+pub fn between_rook_strict(src: Coord, dst: Coord) -> Bitboard {
+    between::rook_strict(src, dst)
+}
+
+pub fn between_is_bishop_valid(src: Coord, dst: Coord) -> bool {
+    between::is_bishop_valid(src, dst)
+}
+
+pub fn between_is_rook_valid(src: Coord, dst: Coord) -> bool {
+    between::is_rook_valid(src, dst)
+}
